@@ -12,7 +12,7 @@ import (
 func init() {
 	register("C18", &Spec{
 		Title: "Batched RPC multiplexing",
-		Explanation: "Decides: (R1) request ids of a batch connection are only ever incremented (never reset, not even by builder.reset); (R2) dispatch is by id and position: the send loop registers entry[i] under RequestIds[i] before the batch is sent, the receive loop completes the entry found under RequestIds[i] with Responses[i] (same index), unknown ids are skipped; (R3) single completion: entry.error is called only from failRequest (after removing the entry from the pending map), the init-failure path of send (entries not yet registered), the async context-cancel hook and the test-only cancel; entry.response only in the receive loop when not cancelled, and the pending-map entry is deleted afterwards on every path; the result channel has capacity 1; (R4) every wait of the synchronous path has context, connection-closed and timer arms, and arms that give up after enqueueing mark the entry cancelled; the async enqueue has context and closed arms; (R5) a stream failure fails exactly the pending entries of that stream's forwarded host before re-creating the stream. NOT decided: request/response identity under concurrent stream failures (interleavings).",
+		Explanation: "Decides: (R1) request ids of a batch connection are only ever incremented (never reset, not even by builder.reset); (R2) dispatch is by id and position: the send loop registers entry[i] under RequestIds[i] before the batch is sent, the receive loop completes the entry found under RequestIds[i] with Responses[i] (same index), unknown ids are skipped; (R3) single completion: entry.error is called only from failRequest (after removing the entry from the pending map), the init-failure path of send (entries not yet registered), the async context-cancel hook and the test-only cancel; entry.response only in the receive loop when not cancelled, and the pending-map entry is deleted afterwards on every path; the result channel has capacity 1; (R4) every wait of the synchronous path has context, connection-closed and timer arms, and arms that give up after enqueueing mark the entry cancelled; the async enqueue has context and closed arms; (R6) only interchangeable resolve-lock requests are collapsed (key = request's region + transaction), and the synchronous path arms one timer with the caller's time-out; (R5) a stream failure fails exactly the pending entries of that stream's forwarded host before re-creating the stream. NOT decided: request/response identity under concurrent stream failures (interleavings).",
 		Run: runC18,
 	})
 }
@@ -295,6 +295,50 @@ func runC18(c *core.Ctx) {
 				a.check(strings.Contains(all, "Done") && strings.Contains(all, "fld(batchConn.closed,"), fname(fn)+" async enqueue arms", in, all, "the async enqueue can block without a context / closed arm: "+all)
 			})
 		}
+	}
+
+	// ---- R6 collapsed requests are identical; one time-out per call ------------------------------------------
+	{
+		a := rule(c, "C18.R6")
+		ck := a.fn(pkgClient, "", "resolveLockCollapseKey")
+		if ck != nil {
+			var parts []string
+			core.Instrs(ck, func(in ssa.Instruction) {
+				ci, ok := in.(*ssa.Call)
+				if !ok || ci.Call.StaticCallee() == nil || !strings.HasPrefix(ci.Call.StaticCallee().String(), "strconv.Format") {
+					return
+				}
+				parts = append(parts, strings.Join(p.Prov().Desc(ci.Call.Args[0]), "|"))
+			})
+			all := strings.Join(parts, " ; ")
+			a.checkAt(strings.Contains(all, "fld(Context.RegionId,&fld(Request.Context,param#0))"), fname(ck)+" keyed by the request's region", a.fnPos(ck), all, "the collapse key does not contain the region id of the request being sent (req.RegionId): resolve-lock calls for different regions are merged and one caller gets another call's response: "+all)
+			a.checkAt(strings.Contains(all, "fld(ResolveLockRequest.StartVersion,"), fname(ck)+" keyed by the transaction", a.fnPos(ck), "", "the collapse key does not contain the transaction's start version: "+all)
+		}
+		// only whole-region resolves (no key list, no txn infos) are collapsed
+		tc := a.fn(pkgClient, "reqCollapse", "tryCollapseRequest")
+		if tc != nil {
+			guardTable(c, "C18.R6", []gRow{
+				{Fn: [3]string{pkgClient, "reqCollapse", "tryCollapseRequest"}, Target: "call:collapse", Facts: []string{"T:(len(fld(ResolveLockRequest.Keys,*) < const(1))", "T:(len(fld(ResolveLockRequest.TxnInfos,*) < const(1))"}, Why: "requests that name keys / transactions are not interchangeable and must not be collapsed"},
+			})
+		}
+		// the synchronous path arms its timer once, with the caller's time-out
+		nNew, nReset := 0, 0
+		core.Instrs(sbr, func(in ssa.Instruction) {
+			ci, ok := in.(*ssa.Call)
+			if !ok || ci.Call.StaticCallee() == nil {
+				return
+			}
+			switch ci.Call.StaticCallee().String() {
+			case "time.NewTimer":
+				nNew++
+				ds := p.Prov().Desc(ci.Call.Args[0])
+				a.check(len(ds) == 1 && strings.HasPrefix(ds[0], "param#"), fname(sbr)+" timer = caller's time-out", in, "", fmt.Sprint("timer armed with ", ds))
+			case "(*time.Timer).Reset":
+				nReset++
+				a.viol(fname(sbr)+" timer re-armed", in, "the time-out timer is re-armed during the call: the call can block longer than its time-out")
+			}
+		})
+		a.checkAt(nNew == 1, fname(sbr)+" one timer per call", a.fnPos(sbr), "", fmt.Sprintf("expected one timer, found %d", nNew))
 	}
 
 	// ---- R5 stream failure fails its pending entries first -----------------------------------------------------------
